@@ -13,7 +13,11 @@ use crate::rng::{FixedRng, TestRng};
 use crate::{scn, Scenario};
 
 pub fn scenarios() -> Vec<Scenario> {
-    vec![scn!(scenario_nonce_derivation), scn!(scenario_preprocess_batch)]
+    vec![
+        scn!(scenario_nonce_derivation, 2),
+        scn!(scenario_preprocess_batch, 2),
+        crate::wrap::scn_commit(1),
+    ]
 }
 
 fn nonce_check<C: Suite>(
